@@ -40,6 +40,13 @@ def gen(rng, tier, no, wide=False):
                               "ts": e["ts"] + lead, "dur": e["dur"] - lead, "args": args})
         for x in extra:
             ev.insert(rng.randint(1, len(ev)), x)
+    if rng.random() < 0.15:
+        # ROCm-style traces: host runtime calls carry the stream as a handle string, which is not a stream number
+        # (such a call stays on the host side)
+        for ev in case["ranks"].values():
+            hs = [e for e in ev if e.get("cat") in ("cuda_runtime", "cuda_driver") and isinstance(e.get("args"), dict) and "stream" not in e["args"]]
+            for e in rng.sample(hs, min(len(hs), rng.randint(1, 4))):
+                e["args"]["stream"] = rng.choice(["0x5608a1c0e3d0", "0x0", "0x7f00", "stream-legacy"])
     return case
 
 
@@ -55,7 +62,8 @@ def wf(case) -> bool:
             c = a.get("correlation", -1)
             if c == -1:
                 continue
-            dev = (a.get("stream", -1) >= 0 and c >= 0) or e["name"] in SYNC_NAMES
+            st = a.get("stream", -1)
+            dev = (isinstance(st, int) and st >= 0 and c >= 0) or e["name"] in SYNC_NAMES
             if (c, dev) in seen:
                 return False
             seen.add((c, dev))
